@@ -35,8 +35,6 @@ package swagtool
 //@ ensures present: implies(strings.Index(tagStr, tagName+":\"") >= 0, exists(e, 0, len(tagStr)+1, e >= strings.Index(tagStr, tagName+":\"")+len(tagName)+2 && (e == len(tagStr) || tagStr[e] == '"') && forall(j, strings.Index(tagStr, tagName+":\"")+len(tagName)+2, e, tagStr[j] != '"') && result == ite(e > strings.Index(tagStr, tagName+":\"")+len(tagName)+2, tagStr[strings.Index(tagStr, tagName+":\"")+len(tagName)+2:e], defaultValue)))
 //@ loop 0 invariant start <= end && end <= len(tagStr) && forall(j, start, end, tagStr[j] != '"')
 
-//@ func GetJsonNameFromTag props C07,C14
-//@ ensures true
 
 //@ func ForceOrderedJSON props C08,C14 havocs
 //@ ensures implies(result1 != nil, len(result0) == 0)
@@ -54,3 +52,16 @@ package swagtool
 //@ func ToOpenApiType props C06,C07,C11,C14 pure
 //@ ensures implies(typeName == "string", result == "string") && implies(typeName == "bool", result == "boolean") && implies(typeName == "int" || typeName == "int64" || typeName == "uint", result == "integer") && implies(typeName == "float64" || typeName == "float32", result == "number")
 //@ ensures result == "string" || result == "integer" || result == "boolean" || result == "number" || result == "binary" || result == "date-time" || result == "array" || result == "map" || result == "object"
+
+
+//@ func GetArrayItemType props C07,C14
+//@ ensures implies(strings.HasPrefix(fieldType, "[]"), result == fieldType[2:]) && implies(!strings.HasPrefix(fieldType, "[]"), result == fieldType)
+
+//@ func GetMapItemType props C07,C14
+//@ ensures true
+
+//@ func HttpStatusCodeToString props C06,C14
+//@ ensures true
+
+//@ func GetJsonNameFromTag props C07,C14
+//@ ensures true
